@@ -82,6 +82,26 @@ class Body:
             self._pred = p
         return self._pred
 
+    def restricted(self, cut_edges):
+        """a view of this body whose CFG lacks `cut_edges` ((src,dst,label) triples or (src,dst)):
+        origin / reaching-definition queries on it only see paths that avoid those edges"""
+        nb = Body(self.key, self.meta, self.facts, mir=dict(nargs=self.nargs, locals=self.locals, blocks=self.blocks,
+                                                             dbg=self.dbg, promoted=[]), promoted_of=self.promoted_of or self)
+        cut = set(cut_edges)
+        succ = []
+        for i, bl in enumerate(self.blocks):
+            if bl['cl']:
+                succ.append([])
+                continue
+            ss = []
+            for tb, lab in self.succ_edges(i):
+                if (i, tb) in cut or (i, tb, lab) in cut:
+                    continue
+                ss.append(tb)
+            succ.append(ss)
+        nb._succ = succ
+        return nb
+
     def reachable(self, cut_edges=frozenset(), cut_blocks=frozenset(), start=0, edge_ok=None):
         """blocks reachable from start; cut_edges is a set of (src,dst) pairs (all parallel edges)
         or (src,dst,label) triples; returns dict block -> predecessor (for witness paths)."""
@@ -205,6 +225,10 @@ class Body:
                         res = inner
                     else:
                         res = (('d', pl[0]), ())
+                elif pl[1] != [] and self.is_ref_local(l):
+                    # copy of a reference stored in a field/upvar: pointee of that place
+                    r0, p0 = self.norm(pl)
+                    res = (r0, tuple(p0) + (('*',),))
             elif rv[0] == 'cast' and rv[1].startswith('Coerce') and is_place_op(rv[2]):
                 pl = rv[2][1]
                 if pl[1] == [] and self.is_ref_local(pl[0]):
@@ -235,7 +259,7 @@ class Body:
             elif pr[0] == 'f':
                 path.append(('f', pr[2], pr[3], pr[4]))
             elif pr[0] == 'i':
-                path.append(('i',))
+                path.append(('i', self._const_local(pr[1])))
             elif pr[0] == 'ci':
                 path.append(('ci', pr[1], pr[3]))
             elif pr[0] == 'sub':
@@ -243,6 +267,17 @@ class Body:
             elif pr[0] == 'dc':
                 path.append(('dc', pr[1]))
         return (root, tuple(path))
+
+    def _const_local(self, l):
+        """integer value of local l if its only definition is an integer constant (index locals)"""
+        defs = self._all_defs().get(l, [])
+        if len(defs) == 1 and defs[0][2] == 'a' and defs[0][3] == [] and defs[0][4][0] == 'use' and defs[0][4][1][0] == 'k':
+            v = defs[0][4][1][2]
+            if isinstance(v, dict) and 'named' in v:
+                v = v['v']
+            if isinstance(v, int) and not isinstance(v, bool):
+                return v
+        return None
 
     @staticmethod
     def field_labels(path):
@@ -408,7 +443,8 @@ class Origin:
             if 'adt' in v:
                 if not v['fields']:
                     return ('variant', f"{v['adt']}::{v['variant']}")
-                return ('agg', f"{v['adt']}::{v['variant']}", tuple(self.const(body, x) for x in v['fields']))
+                return ('agg', f"{v['adt']}::{v['variant']}", tuple(self.const(body, x) for x in v['fields']),
+                        tuple(v.get('fnames', ())))
             if 'promoted' in v:
                 pb = (body.promoted_of or body).promoted[v['promoted']]
                 # promoted body: value of _0 at return
@@ -445,7 +481,14 @@ class Origin:
         outs = []
         for d in defs:
             if d[0] == 'entry':
-                outs.append(self._entry_leaf(body, root, path))
+                if root[0] == 'd' and (root[1] > body.nargs or any(d[3] == [] for d in body._all_defs().get(root[1], ()))) \
+                        and not self._is_const_ref(body, root[1]):
+                    # pointee of a reference held in a local (e.g. the slice returned by as_ref()):
+                    # value = deref(origin of that local)
+                    o = self.nplace(body, (('l', root[1]), ()), bb, si, depth + 1, seen)
+                    outs.append(self._project(('deref', o), tuple(path)))
+                else:
+                    outs.append(self._entry_leaf(body, root, path))
             elif d[0] == 'a':
                 _, b2, j, rv, rel = d
                 v = self.rvalue(body, rv, b2, j, depth + 1, seen)
@@ -474,6 +517,11 @@ class Origin:
             res = uniq[0] if len(uniq) == 1 else ('phi', tuple(uniq))
         body._memo[key] = res
         return res
+
+    def _is_const_ref(self, body, n):
+        defs = body._all_defs().get(n, [])
+        return (len(defs) == 1 and defs[0][2] == 'a' and defs[0][3] == [] and defs[0][4][0] == 'use'
+                and defs[0][4][1][0] == 'k')
 
     def _entry_leaf(self, body, root, path):
         kind, n = root
@@ -513,6 +561,8 @@ class Origin:
                 return self._project(ops[idx], rel[1:])
         if v[0] == 'ref' and rel and rel[0] == ('*',):
             return self._project(v[1], rel[1:])
+        if v[0] == 'deref' and strip_once(v[1])[0] == 'ref':
+            return self._project(strip_once(v[1])[1], rel)
         if v[0] == 'field':
             return ('field', v[1], tuple(v[2]) + rel)
         if v[0] == 'phi':
@@ -579,6 +629,10 @@ class Origin:
         return ('opaque', k)
 
 
+def strip_once(node):
+    return node if isinstance(node, tuple) else ('opaque', 'x')
+
+
 def walk(node, fn):
     """pre-order traversal over an origin tree"""
     stack = [node]
@@ -596,7 +650,7 @@ def walk(node, fn):
             stack += [n[2], n[3]]
         elif k in ('un',):
             stack.append(n[2])
-        elif k in ('cast', 'discr', 'len', 'ref'):
+        elif k in ('cast', 'discr', 'len', 'ref', 'deref'):
             stack.append(n[1])
         elif k == 'call':
             stack += list(n[2])
@@ -699,6 +753,8 @@ def show(node, depth=0, maxdepth=8):
         return f"{k}({r(node[1])})"
     if k == 'ref':
         return '&' + r(node[1])
+    if k == 'deref':
+        return '*' + r(node[1])
     if k == 'agg':
         return node[1].split('::')[-1] + '{' + ', '.join(r(a) for a in node[2]) + '}'
     if k == 'phi':
@@ -713,7 +769,7 @@ def show(node, depth=0, maxdepth=8):
 def strip(node):
     """remove transparent wrappers: ref, cast-free copies, named consts, Deref-like calls"""
     while isinstance(node, tuple):
-        if node[0] == 'ref':
+        if node[0] == 'ref' or node[0] == 'deref':
             node = node[1]
         elif node[0] == 'named':
             node = node[2]
